@@ -51,6 +51,10 @@ pub fn alphabet(with_fs: bool, small: bool) -> Vec<Op> {
         v.push(Op::Install(T::FS, K::RawA));
         if !small {
             v.push(Op::Install(T::FS, K::RawB));
+            v.push(Op::Install(T::TH, K::RawA));
+            v.push(Op::Install(T::P1, K::RawA));
+            v.push(Op::Install(T::P0, K::RawA));
+            v.push(Op::Install(T::PA, K::RawA));
         }
     }
     v
@@ -185,7 +189,7 @@ impl Ctx<'_> {
         vkit::isolate::set_progress(self.step as u64 | self.phase);
         // 1. behaviour of every target (C02) and of non-targets (C03)
         for &t in ALL_T.iter() {
-            if t == T::FS && !w.with_fs {
+            if matches!(t, T::FS | T::TH | T::P0 | T::P1 | T::PA) && !w.with_fs {
                 continue;
             }
             let got = w.call(t);
@@ -203,8 +207,10 @@ impl Ctx<'_> {
         }
         // 2. bytes: arena (byte exact), entries of as-linked targets
         let now = unsafe { arena::read(ARENA, ARENA_LEN as usize) };
-        for (i, (&b, &p)) in now.iter().zip(w.arena_pre.iter()).enumerate() {
-            if b != p {
+        let diffs = vkit::flush::diff_positions(&now, &w.arena_pre);
+        for i in diffs {
+            let (b, p) = (now[i], w.arena_pre[i]);
+            {
                 let addr = ARENA + i as u64;
                 if !allowed_diff(w, &self.model, addr) {
                     let live = self.model.alive;
@@ -218,7 +224,7 @@ impl Ctx<'_> {
                 }
             }
         }
-        for &t in &[T::G, T::C, T::A0] {
+        for &t in &[T::G, T::C, T::A0, T::PA] {
             let img = w.image(t);
             let same = img == w.pre[t as usize];
             fnv(&mut self.res.digest_api, &[same as u8]);
@@ -256,6 +262,12 @@ impl Ctx<'_> {
                 if e.starts_with("machinery") {
                     self.viol("MACHINERY", "env", e);
                 } else {
+                    // an unmap aimed at executable memory the injector does not own takes code away
+                    if let Some(a) = e.strip_prefix("munmap(0x").and_then(|r| r.split(',').next()).and_then(|h| u64::from_str_radix(h, 16).ok()) {
+                        if e.contains("not a live mapping") && vkit::proc::maps().iter().any(|m| m.start <= a && a < m.end && m.perms.as_bytes().get(2) == Some(&b'x')) {
+                            self.viol("C03", "foreign-code-unmapped", format!("{e}: the range is executable memory that is not the injector's"));
+                        }
+                    }
                     self.viol("C12", "bad-unmap", e);
                 }
             }
@@ -271,82 +283,19 @@ impl Ctx<'_> {
     }
 }
 
-/// Flush oracle (C17) over the OS-call log of one API call.  `before`/`after` are the watched
-/// bytes at API entry / return.
+/// Flush oracle (C17): see `vkit::flush::check`.
 fn check_flushes(ctx: &mut Ctx, log: &[envx::Call], before: &[Vec<u8>], after: &[Vec<u8>], watch: &[(u64, u64)], api: &str) {
-    // watched regions are at fixed positions 0..watch.len() of every snapshot; owned-mapping
-    // heads follow (address-prefixed).  Build, per point, a map address -> byte.
-    use std::collections::BTreeMap;
-    let to_map = |snap: &[Vec<u8>]| -> BTreeMap<u64, u8> {
-        let mut m = BTreeMap::new();
-        for (i, rec) in snap.iter().enumerate() {
-            if i < watch.len() {
-                for (j, b) in rec.iter().enumerate() {
-                    m.insert(watch[i].0 + j as u64, *b);
-                }
-            } else if rec.len() >= 8 {
-                let a = u64::from_le_bytes(rec[..8].try_into().unwrap());
-                for (j, b) in rec[8..].iter().enumerate() {
-                    m.insert(a + j as u64, *b);
-                }
-            }
-        }
-        m
-    };
-    let mut points: Vec<BTreeMap<u64, u8>> = Vec::new();
-    points.push(to_map(before));
-    for c in log {
-        points.push(to_map(&c.watch));
-    }
-    points.push(to_map(after));
-    let last = points.len() - 1;
-    // for every address present in the final image: index of the last point at which its value
-    // changed (a byte of a freshly mapped page counts as changed from 0 when it is non-zero)
-    let fin = points[last].clone();
-    for (&addr, &fv) in fin.iter() {
-        let mut last_change: Option<usize> = None;
-        for i in 1..=last {
-            let prev = points[i - 1].get(&addr).copied();
-            let cur = points[i].get(&addr).copied();
-            match (prev, cur) {
-                (Some(p), Some(c)) if p != c => last_change = Some(i),
-                (None, Some(c)) if c != 0 => last_change = Some(i),
-                _ => {}
-            }
-        }
-        let Some(lc) = last_change else { continue };
-        // point i (1-based) is the state *before* log[i-1] takes effect; a change visible at point
-        // lc happened before call lc-1... so any flush with log index >= lc-1 comes after the write
-        let mut covered = false;
-        let mut stale = false;
-        for (j, c) in log.iter().enumerate() {
-            if c.kind != envx::Kind::Flush || j + 1 < lc {
-                continue;
-            }
-            if c.a <= addr && addr < c.b {
-                match &c.snap {
-                    Some(s) if s.get((addr - c.a) as usize).copied() == Some(fv) => covered = true,
-                    _ => stale = true,
-                }
-            }
-        }
-        if !covered {
-            let key = if stale { "flushed-before-final-write" } else { "written-not-flushed" };
-            let a = addr;
-            ctx.viol("C17", key, format!("{api}: code byte {a:#x} written (final value {fv:#04x}) but no later instruction-cache flush covers it with that content"));
-            return;
-        }
-    }
-    for c in log.iter().filter(|c| c.kind == envx::Kind::Flush) {
-        if c.b < c.a {
-            ctx.viol("C17", "flush-range-inverted", format!("{api}: flush range [{:#x},{:#x}) has start > end", c.a, c.b));
-            return;
-        }
+    let pts: Vec<vkit::flush::Point> = log
+        .iter()
+        .map(|c| vkit::flush::Point { is_flush: c.kind == envx::Kind::Flush, a: c.a, b: c.b, snap: c.snap.as_deref(), watch: &c.watch })
+        .collect();
+    if let Some((key, what)) = vkit::flush::check(&pts, before, after, watch, api) {
+        ctx.viol("C17", key, what);
     }
 }
 
 fn watch_regions(w: &World) -> Vec<(u64, u64)> {
-    let mut v = vec![(ARENA + 0x700, 0x200), (ARENA + 0x1F00, 0x200)];
+    let mut v = vec![(SLOT0, 0x100), (PACKED, 0x20), (FS_ADDR - 0x20, 0x40)];
     for &t in &[T::G, T::C, T::A0] {
         v.push((w.addr[t as usize], IMG as u64));
     }
